@@ -4,9 +4,13 @@ EXTENDS GaussSS
 VARIABLES sc, out, done
 vars == <<sc, out, done>>
 
-Ids == {"L1", "L2", "L3", "L9", "L5"}
+\* thorough tier: Deep <- DeepOn in the cfg (more models incl. the second-lead model L4, more std vectors, orders up to 4)
+Deep == FALSE
+DeepOn == TRUE
+Ids == {"L1", "L2", "L3", "L9", "L5"} \cup (IF Deep THEN {"L4", "LK", "LK2", "L5B"} ELSE {})
 SdSets(id) == LET ns == Len(GModel(id).shocks) IN {[i \in 1..ns |-> R(1)], [i \in 1..ns |-> IF i = 1 THEN R(2) ELSE Q(1, 2)]}
-MaxOrder == 2
+              \cup (IF Deep THEN {[i \in 1..ns |-> IF i = 1 THEN Q(1, 3) ELSE R(3)], [i \in 1..ns |-> IF i = 1 THEN RZero ELSE R(1)], [i \in 1..ns |-> R(5)]} ELSE {})
+MaxOrder == IF Deep THEN 4 ELSE 2
 
 Acov(id, sdw, ly, Cs) == LET m == GModel(id) n == Len(m.vars) + Len(m.mvars) IN
     [ok |-> ly.ok /\ LyapOk(ly),
